@@ -242,6 +242,7 @@ class P(Prop):
     MF = "TracklibVerif.Props.C15ExtFin"
     MN = "TracklibVerif.Props.C15ExtNonneg"
     MC = "TracklibVerif.Props.C15Coll"
+    MI = "TracklibVerif.Props.C15ExtInfTotal"
     theorems = [
         (M, "TV.C15.window_spec", "(w,x) is in the window of i iff w = k[j] and x = v[i-j+D] for a kernel position j whose sample index is inside the signal and not NaN"),
         (M, "TV.C15.filter_is_mean", "T1: in the domain Filter.execute succeeds, returns one value per observation, and every filtered value is (sum k[j] v[i-j+D]) / (sum k[j]) over the valid j"),
@@ -306,6 +307,8 @@ class P(Prop):
         (MC, "TV.C15.collection_smooth_first_failure", "the first track whose smooth raises stops the loop: the earlier tracks stay smoothed, the later ones are untouched, the exception is that track's own"),
         (MC, "TV.C15.collection_smooth_is_mean", "T1 for TrackCollection.smooth(width): every track non-empty with x, y, z in the domain of the Gaussian window — in every track each coordinate becomes its mean signal, features untouched"),
         (MC, "TV.C15.collection_smooth_too_short_fails", "TrackCollection.smooth() with the default constraint = 1e3 (half window 3000), or any width whose half window exceeds the first track: IndexError at the first track, no track smoothed"),
+        (MI, "TV.C15.list_infinite_total", "a weight list whose total is infinite (an inf / -inf weight): the list is left holding only 0 and nan, every filtered index is NaN, ZeroDivisionError iff a window reads no sample — with list_zero_or_nan_total: whenever the total is not a non-zero finite number no filtered output is a number"),
+        (MI, "TV.C15.filterWindowX_np_nan", "generic (no law of arithmetic): if the quotient temp/norm of every window that reads a sample is NaN, a weight-list call returns the copied boundaries and NaN elsewhere, and raises ZeroDivisionError iff a window reads no sample"),
         (MF, "TV.C15.fin_div_fin", "temp[i] / norm as numpy computes it from finite accumulators: t/n when n != 0, else inf / -inf by the sign of t, nan for 0/0"),
         (MF, "TV.C15.finite_weights_any_sign", "finite weights of ANY sign (negative included), every window reading a sample: out[i] = (sum k[j] v[i-j+D]) / (sum k[j]) as numpy divides — the renormalised mean when the norm is not 0, +/-inf or NaN when it cancels; never an exception with numpy weights"),
         (MF, "TV.C15.ext_model_agrees", "no zero norm: the model over Python's numbers returns exactly the signal of the model over a field (meanSignal), so the domain theorems (filter_is_mean, filter_bounds, ...) hold for it"),
@@ -325,7 +328,7 @@ class P(Prop):
                        "ordered field extended with a top and a bottom, since inf - inf and 0 * inf have no value there (they are NaN)",
                        "weight lists whose total is 0 or NaN and negative weights are outside the property (it speaks of non-negative kernels; with a total of 0 no renormalisation exists): "
                        "they are modelled as coded over Ext, compared on the 'ext' stream, and what is returned is proved (list_zero_or_nan_total, nonfinite_weights_nan, "
-                       "finite_weights_any_sign); not judged. Not covered: an INFINITE total (an infinite weight: compared on the stream, no theorem), signed zeros (a total of -0.0 flips the "
+                       "finite_weights_any_sign, list_infinite_total for an infinite weight); not judged. Not covered: signed zeros (a total of -0.0 flips the "
                        "infinities; Ext has one zero) and the rounding of a norm that cancels exactly in the rationals (the stream uses totals that are powers of two, so that the "
                        "normalised weights are dyadic)",
                        "the feature-name kernel over a feature holding a NaN is driven through Filter.execute (stream 'ext', via = feat) and covered by list_zero_or_nan_total; "
